@@ -636,3 +636,88 @@ def check_undefined_attrs(prog, rep, rels, rule='ATTR-defined'):
                           'itself' % (node.attr, ci.name, ci.name), node.lineno)
     rep.instance(rule, {'classes_analysed': n, 'modules': sorted(rels)})
     return n
+
+
+def carried_flags(func):
+    """[(loop, name, assignment, read)]: a local that is assigned a CONSTANT under a test inside the
+    body of a `for` loop, is read in that body outside the assigning branch, and is not
+    (re)initialised unconditionally at the top of the body before that read. Its value then
+    carries over from the element that set it to all later elements. Flags that end the loop
+    (`break` / `return` right after the assignment) or that are only read after the loop are the
+    intended "found" idiom and are not reported."""
+    from .core import parent
+    out = []
+    for lp in ast.walk(func):
+        if not isinstance(lp, ast.For):
+            continue
+        top_init = {}
+        for idx, st in enumerate(lp.body):
+            if isinstance(st, ast.Assign):
+                for t in st.targets:
+                    for x in ast.walk(t):
+                        if isinstance(x, ast.Name):
+                            top_init.setdefault(x.id, idx)
+        for st in ast.walk(lp):
+            if not (isinstance(st, ast.Assign) and len(st.targets) == 1 and isinstance(
+                    st.targets[0], ast.Name) and isinstance(st.value, ast.Constant) and
+                    isinstance(st.value.value, (bool, type(None)))):
+                continue
+            name = st.targets[0].id
+            # the branch (directly under the loop body) that contains the assignment
+            cur, top = st, None
+            while cur is not lp and cur is not None:
+                p = parent(cur)
+                if p is lp:
+                    top = cur
+                cur = p
+            if top is None or top is st:
+                continue          # unconditional assignment at the top level of the body
+            blk = parent(st)
+            sib = getattr(blk, 'body', []) if any(x is st for x in getattr(blk, 'body', [])) \
+                else getattr(blk, 'orelse', [])
+            after = sib[[i for i, x in enumerate(sib) if x is st][0] + 1:] if sib else []
+            if any(isinstance(x, (ast.Break, ast.Return, ast.Raise)) for x in after):
+                continue
+            tidx = [i for i, x in enumerate(lp.body) if x is top][0]
+            if name in top_init and top_init[name] < tidx:
+                continue          # re-initialised at the top of every iteration
+            # bound before the loop at all? (otherwise it is a per-iteration local of the branch)
+            reads = [x for s2 in lp.body for x in ast.walk(s2) if isinstance(x, ast.Name) and
+                     x.id == name and isinstance(x.ctx, ast.Load)]
+            outside_reads = []
+            for r in reads:
+                c2 = r
+                inside_top = False
+                while c2 is not lp and c2 is not None:
+                    if c2 is top:
+                        inside_top = True
+                    c2 = parent(c2)
+                if not inside_top or r.lineno > getattr(top, 'end_lineno', top.lineno):
+                    outside_reads.append(r)
+            if not outside_reads:
+                continue
+            pre = [s2 for s2 in ast.walk(func) if isinstance(s2, ast.Assign) and any(
+                isinstance(t, ast.Name) and t.id == name for t in s2.targets) and
+                s2.lineno < lp.lineno]
+            if not pre:
+                continue
+            out.append((lp, name, st, outside_reads[0]))
+    return out
+
+
+def check_carried_flags(prog, rep, rels, rule='LOOP-carried-flag'):
+    from .core import key_text
+    n = 0
+    for rel in rels:
+        m = prog.module(rel)
+        rep.unit(m)
+        for q, f in m.functions.items():
+            n += 1
+            for lp, name, st, r in carried_flags(f):
+                rep.violation(rule, m, q, 'carried:' + name,
+                              '`%s` is set under a test inside the loop and read at line %d of '
+                              'the same body without being re-initialised at the top of the '
+                              'iteration: once one element has set it, every later element is '
+                              'treated the same way' % (key_text(st), r.lineno), st.lineno)
+    rep.instance(rule, {'functions_analysed': n, 'modules': list(rels)})
+    return n
